@@ -5,13 +5,6 @@ remainders, error classes) into Coq terms, evaluation of several checkers over t
 import json, os, re, subprocess
 from vlib import *
 
-# set to "1" once the proposed repair of interpretOptions (copy the options message before each option in lenient
-# mode, take the copy back when the option reported an error) is committed to /repo: the checks then compare the lenient
-# and unlinked runs against the repaired model and C21 claims the theorems of Props/C21_repaired.v
-REPAIRED = os.environ.get("VERIF_OPTIONS_REPAIRED", "0") == "1"
-CHK_LENIENT = "opt_chk_lenient_fx" if REPAIRED else "opt_chk_lenient"
-CHK_UNLINKED = "opt_chk_unlinked_fx" if REPAIRED else "opt_chk_unlinked"
-
 HEADER = ("From Coq Require Import List ZArith NArith Bool String.\nImport ListNotations.\n"
           "From PV Require Import Common.Corr Model.Options Model.ProtocOptions.\n"
           "Open Scope string_scope.\nOpen Scope Z_scope.\n")
@@ -1035,3 +1028,31 @@ def case_term(case, out, strict_mode="strictm"):
     return "(OC %s %d%%N 0%%nat [%s] %s %s %s)" % (
         case.get("sch_ref") or sch.coq(), ELEMENTS[sch.ek][0], "; ".join(stmt_coq(s) for s in case["stmts"]),
         obs_coq(st, key, orig), obs_coq(out["lenient"], key, orig), obs_coq(out["unlinked"], key, orig))
+
+
+# ------------------------------------------------------------------ attribution of a recurrence of f7db43f0
+def _zero_value(v):
+    return v in (("int", 0), ("negzero",), ("str", []), ("ident", "false"), ("float", "0.0")) or \
+        (v[0] == "ident" and v[1].endswith(("_Z", "_A")) and v[1] in ("OE_Z", "E1_A", "E2_A"))
+
+
+def implicit_zero_then_again(sch, stmts):
+    """two statements with the same name path whose last part is a field without presence, the first giving it the zero value"""
+    seen = {}
+    for parts, v in stmts:
+        mi, f = 0, None
+        for k, n in parts:
+            cands = [x["field"] for x in sch.exts_of(mi) if x["name"] == n] if k == "x" else [g for g in sch.fields_of(mi) if g.name == n]
+            if not cands:
+                f = None
+                break
+            f = cands[0]
+            if f.is_msg():
+                mi = f.kind[1]
+        if f is None or not f.implicit:
+            continue
+        key = tuple(parts)
+        if key in seen and seen[key]:
+            return True
+        seen.setdefault(key, _zero_value(v))
+    return False
